@@ -33,7 +33,51 @@ def main():
         import traceback
         traceback.print_exc()
         sys.exit(3)
+    if a.tier == 'thorough' and code == 0 and os.path.realpath(a.repo) == '/repo' and not os.environ.get('PYVC_NO_SELFTEST'):
+        code = selftest(a.pid)
     sys.exit(code)
+
+
+def selftest(pid):
+    """thorough tier only: the check must still detect the seeded breaking changes recorded under seeded/<pid>/ (each applied to a scratch
+    copy of the current tree, removed afterwards).  A recorded change that is no longer detected means the checker is broken: exit 3."""
+    import glob
+    import shutil
+    import subprocess
+    import tempfile
+    from concurrent.futures import ThreadPoolExecutor
+    seeds = sorted(glob.glob(os.path.join(HERE, 'seeded', pid, '*', 'patch.diff')))
+    if not seeds:
+        return 0
+
+    def one(patch):
+        d = tempfile.mkdtemp(prefix='pcfg_selftest_')
+        try:
+            subprocess.run(['rsync', '-a', '--exclude', '.git', '--exclude', '.pyvc_*', '/repo/', d + '/'], check=True)
+            r = subprocess.run(['git', 'apply', '--directory', d.lstrip('/'), '--unsafe-paths', patch], cwd='/', capture_output=True, text=True)
+            if r.returncode != 0:
+                return {'seed': os.path.relpath(patch, HERE), 'applies': False, 'detected': None}
+            env = dict(os.environ, PYVC_NO_SELFTEST='1')
+            c = subprocess.run([os.path.join(HERE, 'check'), pid, '--repo', d, '--tier', 'quick'], capture_output=True, text=True, env=env)
+            return {'seed': os.path.relpath(patch, HERE), 'applies': True, 'detected': c.returncode == 1, 'exit': c.returncode}
+        finally:
+            shutil.rmtree(d, ignore_errors=True)
+    with ThreadPoolExecutor(max_workers=2) as ex:
+        res = list(ex.map(one, seeds))
+    ev = os.path.join(HERE, 'evidence', pid + '.json')
+    try:
+        with open(ev) as fh:
+            e = json.load(fh)
+        e['coverage']['selftest_seeded_changes'] = res
+        with open(ev, 'w') as fh:
+            json.dump(e, fh, indent=1)
+    except Exception:
+        pass
+    missed = [r for r in res if r['applies'] and not r['detected']]
+    print('selftest: %d of %d applicable seeded changes detected' % (len([r for r in res if r['detected']]), len([r for r in res if r['applies']])))
+    for r in missed:
+        print('SELFTEST-MISS property=%s seed=%s exit=%s (the check no longer reports this recorded breaking change)' % (pid, r['seed'], r.get('exit')))
+    return 3 if missed else 0
 
 
 main()
